@@ -1,9 +1,147 @@
-"""Engine A under Miri - placeholder until wired in."""
+"""Engine A under Miri (DESIGN.md §5): the polldfs enumeration at its smallest bounds, interpreted by Miri so
+that undefined behaviour in the MaybeUninit / ManuallyDrop bookkeeping becomes a failing execution."""
+import hashlib
+import json
+import os
+import subprocess
+import time
+from concurrent.futures import ThreadPoolExecutor
+
+ROOT = os.path.dirname(os.path.dirname(os.path.abspath(__file__)))
+ENGINE = os.path.join(ROOT, "engines", "polldfs")
+FEATURE = {"std": "cfg-std", "alloc": "cfg-alloc", "nostd": "cfg-nostd"}
+
+
+def env_for(cfg):
+    return dict(os.environ, CARGO_NET_OFFLINE="true", MIRIFLAGS="-Zmiri-disable-isolation", CARGO_TARGET_DIR=os.path.join(ROOT, ".build", "miri-" + cfg))
+
+
+def matrix():
+    """(binary, cfg, key) - the smallest full bounds: N=2, P=1, I=1, one drop point, one panic"""
+    import suites
+    S = suites
+    items = []
+    for fam, conts in S.FUT_CONT.items():
+        for cont in conts:
+            items += S.fut(fam, cont, 2, ("std",), p=1, dr=1, pa=1)
+            if cont in ("vec", "tuple"):
+                items += S.fut(fam, cont, 3, ("std",), p=1, dr=1, pa=1, sw=0, dev=3)
+                items += S.fut(fam, cont, 2, ("alloc",), p=1, dr=1, pa=1, sw=0)
+    for fam, conts in S.STR_CONT.items():
+        for cont in conts:
+            items += S.strm(fam, cont, 2, ("std",), p=1, i=1, dr=1, pa=1, sw=0)
+            if cont in ("vec", "tuple"):
+                items += S.strm(fam, cont, 2, ("std",), p=1, i=2, dr=1, pa=1, sw=0, dev=3)
+                items += S.strm(fam, cont, 2, ("alloc",), p=1, i=1, dr=1, pa=1, sw=0, dev=3)
+    for fam in ("fgroup", "sgroup"):
+        i = 1 if fam == "sgroup" else None
+        items += S.grp(fam, ("std",), init=1, mm=2, ops=1, p=1, i=i, dr=1, pa=1, sw=0)
+        items += S.grp(fam, ("std",), keyed=1, init=2, mm=3, ops=2, p=1, i=i, dr=1, pa=1, sw=0, dev=3)
+    for term in ("for_each", "try_for_each", "collect", "collect_result"):
+        items += S.co(("std",), src="stream", l=2, i=2, p=1, term=term, stack="ml" if term != "collect_result" else "e", lm=1, wp=1, dr=1, pa=1, sw=0, dev=3)
+        items += S.co(("std",), src="vec", l=2, term=term, stack="t" if term != "collect_result" else None, tn=1, wp=1, dr=1, pa=1, sw=0, dev=3)
+    return items
+
+
+def build(cfg, bins, log):
+    ok = True
+    for b in bins:
+        cmd = ["cargo", "+nightly", "miri", "run", "--offline", "-q", "--features", FEATURE[cfg], "-p", "polldfs-drivers", "--bin", b, "--", "--help-noop"]
+        # a run without --items exits with a panic; we only want the build. Use `miri setup`-free trick: build via `cargo miri run` on an empty item list.
+        empty = os.path.join(ROOT, ".build", "empty.items")
+        open(empty, "w").write("")
+        cmd = cmd[:-2] + ["--", "--items", empty, "--threads", "1", "--out", os.path.join(ROOT, ".build", "empty.out")]
+        p = subprocess.run(cmd, cwd=ENGINE, env=env_for(cfg), stdout=subprocess.PIPE, stderr=subprocess.STDOUT, text=True)
+        if p.returncode not in (0,):
+            ok = False
+            log("miri build/run of %s (%s) failed:\n%s" % (b, cfg, p.stdout[-3000:]))
+    return ok
+
+
+def run_slice(job):
+    binary, cfg, keys, idx, workdir, tmo = job
+    items_file = os.path.join(workdir, "miri-%s-%s-%d.items" % (binary, cfg, idx))
+    out_file = os.path.join(workdir, "miri-%s-%s-%d.json" % (binary, cfg, idx))
+    journal = os.path.join(workdir, "miri-%s-%s-%d.journal" % (binary, cfg, idx))
+    open(items_file, "w").write("\n".join(keys) + "\n")
+    for f in (out_file, journal):
+        if os.path.exists(f):
+            os.remove(f)
+    cmd = ["cargo", "+nightly", "miri", "run", "--offline", "-q", "--features", FEATURE[cfg], "-p", "polldfs-drivers", "--bin", binary, "--",
+           "--items", items_file, "--targets", "2", "--threads", "1", "--track-states", "0", "--hang-secs", "100000", "--split", "1", "--journal", journal, "--out", out_file]
+    t0 = time.time()
+    try:
+        p = subprocess.run(cmd, cwd=ENGINE, env=env_for(cfg), stdout=subprocess.PIPE, stderr=subprocess.PIPE, text=True, timeout=tmo)
+    except subprocess.TimeoutExpired:
+        return {"status": "timeout", "binary": binary, "cfg": cfg, "keys": keys}
+    res = None
+    if os.path.exists(out_file):
+        try:
+            res = json.load(open(out_file))
+        except Exception:
+            pass
+    ub = "Undefined Behavior" in p.stderr or "error: unsupported operation" in p.stderr or "memory leaked" in p.stderr
+    jr = open(journal).read().split() if os.path.exists(journal) else []
+    return {"status": "ub" if ub else ("ok" if p.returncode in (0, 1) and res is not None else "machinery"), "rc": p.returncode, "binary": binary, "cfg": cfg, "keys": keys,
+            "res": res, "stderr": p.stderr[-3000:], "journal": jr, "wall_s": time.time() - t0}
 
 
 def run(plan, tier, log, root):
-    return {"coverage": {}, "violations": [], "machinery": []}
+    out = {"coverage": {}, "violations": [], "machinery": []}
+    items = matrix()
+    groups = {}
+    for (b, c, k) in items:
+        groups.setdefault((b, c), []).append(k)
+    workdir = os.path.join(ROOT, ".build", "work", "miri")
+    os.makedirs(workdir, exist_ok=True)
+    # build sequentially per cfg (one target dir per cfg), binaries of one cfg one after the other
+    for cfg in sorted({c for (_, c) in groups}):
+        if not build(cfg, sorted({b for (b, c) in groups if c == cfg}), log):
+            out["machinery"].append("polldfs did not build / start under Miri (%s)" % cfg)
+            return out
+    jobs = []
+    for (b, c), keys in sorted(groups.items()):
+        for i, k in enumerate(keys):
+            jobs.append((b, c, [k], i, workdir, 3000))
+    with ThreadPoolExecutor(max_workers=16) as ex:
+        rs = list(ex.map(run_slice, jobs))
+    execs = 0
+    rows = []
+    for r in rs:
+        if r["status"] == "ok":
+            execs += r["res"]["executions"]
+            rows.append({"binary": r["binary"], "cfg": r["cfg"], "item": r["keys"][0], "executions": r["res"]["executions"], "wall_s": round(r["wall_s"], 1)})
+            for f in r["res"].get("found", []):
+                os.makedirs(os.path.join(ROOT, "replays"), exist_ok=True)
+                h = hashlib.sha1((f["item"] + repr(f["choices"])).encode()).hexdigest()[:10]
+                path = os.path.join(ROOT, "replays", "C02-miri-%s.json" % h)
+                json.dump({"engine": "polldfs", "property": "C02", "binary": r["binary"], "crate_cfg": r["cfg"], "item": f["item"], "choices": [c[0] for c in f["choices"]], "verdict": f["msg"], "under": "miri"}, open(path, "w"), indent=1)
+                out["violations"].append({"item": f["item"], "msg": f["msg"], "replay": path})
+        elif r["status"] == "ub":
+            os.makedirs(os.path.join(ROOT, "replays"), exist_ok=True)
+            prefix = [int(x) for x in r["journal"][1].split(",")] if len(r["journal"]) > 1 and r["journal"][1] else []
+            h = hashlib.sha1((r["keys"][0] + repr(prefix)).encode()).hexdigest()[:10]
+            path = os.path.join(ROOT, "replays", "C02-miri-%s.json" % h)
+            json.dump({"engine": "miri", "property": "C02", "binary": r["binary"], "crate_cfg": r["cfg"], "item": r["keys"][0], "choices": prefix,
+                       "verdict": "Miri reported undefined behaviour / a leak while executing this trace", "miri_report": r["stderr"]}, open(path, "w"), indent=1)
+            out["violations"].append({"item": r["keys"][0], "msg": "Miri: undefined behaviour or leak (see replay file)", "replay": path})
+        elif r["status"] == "timeout":
+            out["machinery"].append("miri slice timed out: %s" % r["keys"][0])
+        else:
+            out["machinery"].append("miri slice failed (rc=%s): %s\n%s" % (r.get("rc"), r["keys"][0], r.get("stderr", "")[-1500:]))
+    out["coverage"] = {"executions_under_miri": execs, "items": len(rows), "runs": rows,
+                       "note": "same exhaustive enumeration as the native run at the smallest bounds, interpreted by Miri (UB, use of uninitialised memory, double free, leaks become failures)"}
+    return out
 
 
 def replay(rec, log):
-    return 2
+    cfg, binary = rec["crate_cfg"], rec["binary"]
+    cmd = ["cargo", "+nightly", "miri", "run", "--offline", "-q", "--features", FEATURE[cfg], "-p", "polldfs-drivers", "--bin", binary, "--",
+           "--replay", rec["item"], "--choices", ",".join(map(str, rec["choices"])), "--targets", "2"]
+    p = subprocess.run(cmd, cwd=ENGINE, env=env_for(cfg), stdout=subprocess.PIPE, stderr=subprocess.PIPE, text=True)
+    print(p.stdout[-3000:])
+    if "Undefined Behavior" in p.stderr or "memory leaked" in p.stderr or p.returncode == 1:
+        print(p.stderr[-3000:])
+        print("VIOLATION property=C02 replay=%s" % rec.get("_path", ""))
+        return 1
+    return 0 if p.returncode == 0 else 2
